@@ -618,7 +618,7 @@ func TestC05(t *testing.T) {
 		}()
 	}
 	wg.Wait()
-	code := run.Finish("scripted raw peer against one real stack in virtual time; the tap is a totally ordered log of (virtual instant, segment). Kinds: 'silent' (flight of 1-20 segments, first j acknowledged, then 130 s of silence: every retransmission must carry the earliest unacknowledged offset, come >= 200 ms after that segment's previous transmission, intervals at least doubling, exactly one data segment per timeout instant); 'fastrexmit' (flight 5-64, segment #l lost at every position incl. the very first, 3-6 duplicate ACKs with/without SACK blocks, ACKs delayed by 0..2 s of virtual RTT: the retransmission must be in the log at the instant the third duplicate ACK is delivered); 'cwnd' (20-220 segments, prompt / duplicate / mid-segment ACKs). At every emission: <= 10 distinct segments before the first ACK; with Reno, segments in flight <= 10 + segments acknowledged + duplicate ACKs delivered so far. Reno and CUBIC, IPv4/IPv6, active/passive, MSS 100..1200, timestamps, SACK, wrap-adjacent ISS. distinct = configuration classes Later additions: ICMP fragmentation-needed reports that name the MTU already in use arrive after the first flight: nothing may be sent because of them. Fast-retransmit scenarios continue with two more holes uncovered by partial ACKs 100 ms apart, then silence (200 ms rule for the last hole).",
+	code := run.Finish("scripted raw peer against one real stack in virtual time; the tap is a totally ordered log of (virtual instant, segment). Kinds: 'silent' (flight of 1-20 segments, first j acknowledged, then 130 s of silence: every retransmission must carry the earliest unacknowledged offset, come >= 200 ms after that segment's previous transmission, intervals at least doubling, exactly one data segment per timeout instant); 'fastrexmit' (flight 5-64, segment #l lost at every position incl. the very first, 3-6 duplicate ACKs with/without SACK blocks, ACKs delayed by 0..2 s of virtual RTT: the retransmission must be in the log at the instant the third duplicate ACK is delivered); 'cwnd' (20-220 segments, prompt / duplicate / mid-segment ACKs). At every emission: <= 10 distinct segments before the first ACK; with Reno, segments in flight <= 10 + segments acknowledged + duplicate ACKs delivered so far. Reno and CUBIC, IPv4/IPv6, active/passive, MSS 100..1200, timestamps, SACK, wrap-adjacent ISS. distinct = configuration classes Later additions: One fast-retransmit scenario in three delivers its three duplicate ACKs byte-identical and back to back on one processor (all three sit in the endpoint's queue before its goroutine runs). ICMP fragmentation-needed reports that name the MTU already in use arrive after the first flight: nothing may be sent because of them. Fast-retransmit scenarios continue with two more holes uncovered by partial ACKs 100 ms apart, then silence (200 ms rule for the last hole).",
 		[]string{"no timer can fire while the bubble is being quiesced after an injected ACK (time advances by 1 us per step; a coincidence would only make a retransmission look earlier, never later)", "CUBIC is held to the clauses not qualified 'with the default controller'"})
 	os.Exit(code)
 }
